@@ -89,6 +89,49 @@ Fixpoint pre_all (r : range T) (ops : list (op T)) : Prop :=
   | o :: rest => pre r o /\ forall r', step d r o = Ok r' -> pre_all r' rest
   end.
 
+(* ---------- preconditions of the code as of /repo HEAD (after 19d4f5b, 3140dd1) ---------- *)
+(* The rectangle has fewer than 2^32 rows and fewer than 2^32 columns: the domain on which
+   Range.width / Range.height coincide with the u32 computation of the real code. *)
+Definition fits32 (r : range T) : Prop :=
+  is_empty r = true \/
+  (fst (r_end r) - fst (r_start r) < U32MAX /\ snd (r_end r) - snd (r_start r) < U32MAX).
+
+(* from_sparse no longer needs its cells sorted by row.  What is left: the coordinates are u32
+   values (a typing fact), and the bounding box is not the full 2^32 x 2^32 grid (whose area
+   saturates usize). *)
+Definition pre_sparse (cs : list (pos * T)) : Prop :=
+  (forall c, In c cs -> fst (fst c) <= U32MAX /\ snd (fst c) <= U32MAX) /\
+  match tight_bbox (map fst cs) with
+  | None => True
+  | Some (s, e) => box_cells s e <= U64MAX
+  end.
+
+Definition dims32 (s e : pos) : Prop := fst e - fst s < U32MAX /\ snd e - snd s < U32MAX.
+
+(* [pre] without the sortedness of from_sparse and with the cell-count bound of new / range
+   replaced by a bound on each dimension (Range::new counts cells in usize since 19d4f5b). *)
+Definition pre_head (r : range T) (o : op T) : Prop :=
+  match o with
+  | ONew s e => le2 s e /\ dims32 s e
+  | OEmpty => True
+  | OFromSparse cs =>
+      (forall c, In c cs -> fst (fst c) <= U32MAX /\ snd (fst c) <= U32MAX) /\
+      match tight_bbox (map fst cs) with
+      | None => True
+      | Some (s, e) => dims32 s e
+      end
+  | OSetValue p v =>
+      is_empty r = true \/
+      (le2 (r_start r) p /\ fst p - fst (r_start r) < U32MAX /\ snd p - snd (r_start r) < U32MAX)
+  | OWindow s e => le2 s e /\ dims32 s e
+  end.
+
+Fixpoint pre_head_all (r : range T) (ops : list (op T)) : Prop :=
+  match ops with
+  | [] => True
+  | o :: rest => pre_head r o /\ forall r', step d r o = Ok r' -> pre_head_all r' rest
+  end.
+
 (* row-major enumeration used to state what cells() must return *)
 Definition get_rel (r : range T) (i j : N) : option T := get r (i, j).
 
